@@ -96,6 +96,48 @@ theorem C15_row_containers (f : OdsFeatures) (rows : List (List Str × Nat)) :
 example : odsRows (some (regroupDoc (encodeDoc { colRuns := true } [[[['a']], [['b'], ['b']], [['c']], [['d']], [['e']]]]))) 1
     = .rows [[some ['a']], [some ['b'], some ['b']], [some ['c']], [some ['d']], [some ['e']]] := by decide +kernel
 
+theorem mapChildren_tag (g : List Xml → List Xml) (x : Xml) : (mapChildren g x).tag = x.tag := by cases x; rfl
+theorem mapChildren_children (g : List Xml → List Xml) (x : Xml) : (mapChildren g x).children = g x.children := by cases x; rfl
+
+theorem tables_of_regroupDoc (f : OdsFeatures) (d : OdsDoc) :
+    (((regroupDoc (encodeDoc f d)).childrenTagged "office:body").flatMap (·.childrenTagged "office:spreadsheet")).flatMap
+      (·.childrenTagged "table:table") =
+      d.zipIdx.map (fun (p : List (List Str) × Nat) => mapChildren groupRows (encodeSheet f ("Sheet" ++ toString (p.2 + 1)) p.1)) := by
+  unfold regroupDoc encodeDoc
+  simp only [mapChildren, Xml.childrenTagged, Xml.children, Xml.tag, List.map_cons, List.map_nil, List.filter_cons, beq_self_eq_true, if_true,
+    List.filter_nil, List.flatMap_cons, List.flatMap_nil, List.append_nil, List.map_map]
+  have hmap : (d.zipIdx.map ((mapChildren groupRows) ∘ fun x => match x with | (rows, i) => encodeSheet f ("Sheet" ++ toString (i + 1)) rows)) =
+      d.zipIdx.map (fun (p : List (List Str) × Nat) => mapChildren groupRows (encodeSheet f ("Sheet" ++ toString (p.2 + 1)) p.1)) := by
+    apply List.map_congr_left; intro p _; rfl
+  rw [hmap]
+  exact filter_tag_map _ "table:table" _ (fun a => by rw [mapChildren_tag]; rfl)
+
+/-- **decode ∘ encode with the rows of every sheet in row containers**: as `C15_decode_encode`, for documents whose rows are
+wrapped into header rows, (nested) outline groups and plain row groups -/
+theorem C15_decode_encode_grouped (f : OdsFeatures) (hf : f.rowRuns = false) (d : OdsDoc) (k : Nat) (hk1 : 1 ≤ k) (hk2 : k ≤ d.length)
+    (hsmall : ∀ r ∈ d[k - 1]'(by omega), r.length < 10 ^ maxStrDigits)
+    (hcells : ∀ r ∈ d[k - 1]'(by omega), ∀ t ∈ r, t.length < 10 ^ maxStrDigits) :
+    odsRows (some (regroupDoc (encodeDoc f d))) k = .rows ((d[k - 1]'(by omega)).map (·.map some)) := by
+  unfold odsRows
+  simp only [tables_of_regroupDoc, List.length_map, List.length_zipIdx]
+  have h1 : ¬ (d.length < k ∨ k < 1) := by omega
+  simp only [Bool.or_eq_true, decide_eq_true_eq, h1, if_false]
+  have hget : (d.zipIdx.map (fun (p : List (List Str) × Nat) => mapChildren groupRows (encodeSheet f ("Sheet" ++ toString (p.2 + 1)) p.1)))[k - 1]? =
+      some (mapChildren groupRows (encodeSheet f ("Sheet" ++ toString (k - 1 + 1)) (d[k - 1]'(by omega)))) := by
+    rw [List.getElem?_map, List.getElem?_zipIdx]
+    have : d[k - 1]? = some (d[k - 1]'(by omega)) := List.getElem?_eq_getElem (by omega)
+    simp [this]
+  rw [hget]
+  simp only []
+  have hrows : tableRowsIn (mapChildren groupRows (encodeSheet f ("Sheet" ++ toString (k - 1 + 1)) (d[k - 1]'(by omega)))).children =
+      (d[k - 1]'(by omega)).map (fun r => encodeRow f r 1) := by
+    rw [mapChildren_children]
+    unfold encodeSheet Xml.children
+    simp only [hf, Bool.false_eq_true, if_false]
+    have := tableRowsIn_groupRows f ((d[k - 1]'(by omega)).map (fun r => (r, 1)))
+    simpa [List.map_map, Function.comp_def] using this
+  rw [hrows, odsRowsOf_encoded f _ hsmall hcells]
+
 /-- **Covered cells.** Decoding the cells of a row does not depend on which of them are stored as cells covered by a merge
 (`table:covered-table-cell`): whatever list of cell elements a row holds, covering every second one leaves the decoded row
 unchanged - same number of cells, same texts, same repeat counts. -/
